@@ -20,8 +20,8 @@ def scratch(prefix="shexer-verif-"):
     return tempfile.mkdtemp(prefix=prefix)
 
 
-def _cmd(module, cfg, workers, metadir, extra, heap):
-    return ["java", "-XX:+UseParallelGC", "-Xmx%s" % heap, "-cp", JAR, "tlc2.TLC",
+def _cmd(module, cfg, workers, metadir, extra, heap, xss=None):
+    return ["java", "-XX:+UseParallelGC", "-Xmx%s" % heap] + (["-Xss%s" % xss] if xss else []) + ["-cp", JAR, "tlc2.TLC",
             "-workers", str(workers), "-metadir", metadir, "-noGenerateSpecTE", "-config", cfg] + list(extra) + [module]
 
 
@@ -33,7 +33,7 @@ def parse_value_lines(out, tag):
     return [l for l in out.split("\n") if l.startswith('<<"%s"' % tag)]
 
 
-def run(module, cfg, workers=16, timeout=900, extra=(), env=None, heap="8g", cwd=None, keep=False):
+def run(module, cfg, workers=16, timeout=900, extra=(), env=None, heap="8g", cwd=None, keep=False, xss=None):
     """runs TLC in SPEC_DIR (or cwd); returns dict(out, states, distinct, ok, violated, wall)"""
     work = scratch()
     t0 = time.time()
@@ -41,7 +41,7 @@ def run(module, cfg, workers=16, timeout=900, extra=(), env=None, heap="8g", cwd
         e = dict(os.environ)
         if env:
             e.update(env)
-        p = subprocess.run(_cmd(module, cfg, workers, os.path.join(work, "meta"), extra, heap),
+        p = subprocess.run(_cmd(module, cfg, workers, os.path.join(work, "meta"), extra, heap, xss),
                            cwd=cwd or SPEC_DIR, env=e, stdout=subprocess.PIPE, stderr=subprocess.STDOUT,
                            timeout=timeout, text=True)
         out = p.stdout
@@ -156,7 +156,7 @@ def parse_tla_value(s):
     return v
 
 
-def validate_batch(module, cfg, traces, procs=8, chunk=None, timeout=1200, heap="3g"):
+def validate_batch(module, cfg, traces, procs=8, chunk=None, timeout=1200, heap="3g", xss=None):
     """L3: judge every trace with the monitor module; returns (verdicts: id -> parsed record, stats)
 
     The monitor prints one line <<"VERDICT", id, {clauses}, info>> per trace; a trace without a line means the
@@ -177,7 +177,7 @@ def validate_batch(module, cfg, traces, procs=8, chunk=None, timeout=1200, heap=
             files.append(f)
 
         def one(f):
-            return run(module, cfg, workers=1, timeout=timeout, env={"TRACE_FILE": f}, heap=heap)
+            return run(module, cfg, workers=1, timeout=timeout, env={"TRACE_FILE": f}, heap=heap, xss=xss)
         with ThreadPoolExecutor(len(files)) as ex:
             results = list(ex.map(one, files))
     finally:
